@@ -68,7 +68,7 @@ Inductive stmt :=
 | SImport (ln : nat) (tgt : path) (asn : option string)                 (* import a.b.c [as asn] *)
 | SSetAll (ln : nat) (its : list item)                                  (* __all__ = ... *)
 | SAddAll (ln : nat) (its : list item)                                  (* __all__ += ... *)
-| SExtAll (ln : nat) (its : list item).                                 (* __all__.extend(...) : not handled by the visitor *)
+| SExtAll (ln : nat) (its : list item).                                 (* __all__.extend(...) *)
 
 Record modsrc := mkSrc { ms_path : path; ms_init : bool; ms_children : list string; ms_body : list stmt }.
 
@@ -118,7 +118,10 @@ Definition visit_stmt (mp : path) (is_init : bool) (st : modst) (s : stmt) : mod
                       | Some e => mkSt (members st) (imports st) (Some (e ++ its))
                       | None => st                         (* AttributeError suppressed *)
                       end
-  | SExtAll _ _ => st                                       (* an expression statement: no visit_expr handling of __all__ *)
+  | SExtAll _ its => match exports st with                  (* visit_expr: __all__.extend(...) *)
+                     | Some e => mkSt (members st) (imports st) (Some (e ++ its))
+                     | None => st                         (* AttributeError suppressed *)
+                     end
   end.
 
 Definition empty_st : modst := mkSt [] [] None.
@@ -301,11 +304,53 @@ Definition ref_module_path (mp : path) (st : modst) (local : string) (attr : boo
   | None => None
   end.
 
+(* the last component of export.canonical_path: `__all__` for `x.__all__` and for a name bound by `from m import __all__ as name` *)
+Definition ref_list_name (mp : path) (st : modst) (local : string) (attr : bool) : string :=
+  if attr then "__all__" else match resolve_local mp st local with Some p => last p "" | None => "" end.
+
+(* expand_exports: the list can be another module's __all__ imported under another name and imported again from there (a member of the
+   module q that is an alias): it is followed to the module it belongs to.  None: the alias does not resolve (the source is skipped) *)
+Definition list_owner (fuel : nat) (t : table) (top : string) (q : path) (lname : string) : option path :=
+  if String.eqb lname "__all__" then Some q
+  else match get_mod t q with
+       | Some stq => match lookup lname (members stq) with
+                     | Some am => if is_alias am
+                                  then match final fuel t top am (q ++ [lname]) with
+                                       | FObj _ pth => Some (removelast pth)
+                                       | FMod q' => Some q'
+                                       | FUnres => None
+                                       end
+                                  else Some q
+                     | None => Some q
+                     end
+       | None => Some q
+       end.
+
 Definition has_ref (ex : option (list item)) : bool :=
   match ex with Some l => existsb (fun it => match it with IRef _ _ => true | _ => false end) l | None => false end.
 
 Record xstate := mkX { xt : table; xseen : list path; xunsup : bool; xdropped : list (path * string);
-                       xdone : list path; xpending : list (path * path) }.
+                       xdone : list path; xpending : list (path * path);
+                       xhops : list (path * string) }.   (* members of other modules passed while following a source to its module *)
+
+(* the members (module, name) that `final` passes *)
+Fixpoint final_hops (fuel : nat) (t : table) (top : string) (m : member) : list (path * string) :=
+  match fuel with
+  | 0 => []
+  | S f =>
+      let follow := fun p => match lookup_path t top p with
+                             | LMem mp n m' => (mp, n) :: final_hops f t top m'
+                             | _ => []
+                             end in
+      match m with
+      | MObj _ _ | MSub => []
+      | MAlias tgt _ _ => follow tgt
+      | MWrap src inner _ => match inner with
+                             | MObj _ _ | MSub => follow src
+                             | _ => final_hops f t top inner
+                             end
+      end
+  end.
 
 Definition set_exports (t : table) (p : path) (ex : option (list item)) : table :=
   match get_mod t p with Some st => set_mod t p (mkSt (members st) (imports st) ex) | None => t end.
@@ -316,7 +361,7 @@ Fixpoint expx (fuel : nat) (top : string) (mp : path) (s : xstate) : outcome xst
   match fuel with
   | 0 => OutOfFuel
   | S f =>
-      let s := mkX (xt s) (mp :: xseen s) (xunsup s) (xdropped s) (xdone s) (xpending s) in
+      let s := mkX (xt s) (mp :: xseen s) (xunsup s) (xdropped s) (xdone s) (xpending s) (xhops s) in
       match get_mod (xt s) mp with
       | None => Done s
       | Some st =>
@@ -328,7 +373,10 @@ Fixpoint expx (fuel : nat) (top : string) (mp : path) (s : xstate) : outcome xst
               | IRef l a :: r =>
                   (* None: outside the model; Some None: nothing is added (KeyError / unresolvable alias: continue; an object that is
                      not a module: TypeError caught); Some (Some q): the module whose __all__ is spliced in, an alias being followed *)
-                  let tgt : option (option path) :=
+                  let fl := S (List.length (xt s) * 8 + 64) in
+                  let lname := ref_list_name mp st l a in
+                  (* the module the path names (an alias of a module is followed), then the owner of the list *)
+                  let named : option (option path) :=
                     match ref_module_path mp st l a with
                     | None => None
                     | Some p =>
@@ -336,7 +384,7 @@ Fixpoint expx (fuel : nat) (top : string) (mp : path) (s : xstate) : outcome xst
                         | LMod q => Some (Some q)
                         | LMem amp an am =>
                             if is_alias am
-                            then match final (S (List.length (xt s) * 8 + 64)) (xt s) top am (amp ++ [an]) with
+                            then match final fl (xt s) top am (amp ++ [an]) with
                                  | FMod q => Some (Some q)
                                  | _ => Some None
                                  end
@@ -345,10 +393,36 @@ Fixpoint expx (fuel : nat) (top : string) (mp : path) (s : xstate) : outcome xst
                         | LUnsupported => None
                         end
                     end in
+                  let tgt : option (option path) :=
+                    match named with
+                    | Some (Some q) => Some (list_owner fl (xt s) top q lname)
+                    | other => other
+                    end in
+                  let hops : list (path * string) :=
+                    (match ref_module_path mp st l a with
+                     | Some p => match lookup_path (xt s) top p with
+                                 | LMem amp an am => (amp, an) :: final_hops fl (xt s) top am
+                                 | _ => []
+                                 end
+                     | None => []
+                     end)
+                    ++ (match named with
+                        | Some (Some q) =>
+                            if String.eqb lname "__all__" then []
+                            else match get_mod (xt s) q with
+                                 | Some stq => match lookup lname (members stq) with
+                                               | Some am => if is_alias am then (q, lname) :: final_hops fl (xt s) top am else []
+                                               | None => []
+                                               end
+                                 | None => []
+                                 end
+                        | _ => []
+                        end) in
                   match tgt with
-                  | None => go r acc (mkX (xt s) (xseen s) true (xdropped s) (xdone s) (xpending s))
-                  | Some None => go r acc (mkX (xt s) (xseen s) (xunsup s) (xdropped s ++ [(mp, l)]) (xdone s) (xpending s))
+                  | None => go r acc (mkX (xt s) (xseen s) true (xdropped s) (xdone s) (xpending s) (xhops s))
+                  | Some None => go r acc (mkX (xt s) (xseen s) (xunsup s) (xdropped s ++ [(mp, l)]) (xdone s) (xpending s) (xhops s))
                   | Some (Some q) =>
+                      let s := mkX (xt s) (xseen s) (xunsup s) (xdropped s) (xdone s) (xpending s) (xhops s ++ hops) in
                       let after := if mem_path q (xseen s) then Done s else expx f top q s in
                       match after with
                       | Done s' =>
@@ -357,7 +431,7 @@ Fixpoint expx (fuel : nat) (top : string) (mp : path) (s : xstate) : outcome xst
                                         | Some l' =>
                                             let pend := negb (mem_path q (xdone s')) && has_ref (Some l') in
                                             let s2 := if pend then mkX (xt s') (xseen s') (xunsup s') (xdropped s') (xdone s')
-                                                                           (xpending s' ++ [(mp, q)]) else s' in
+                                                                           (xpending s' ++ [(mp, q)]) (xhops s') else s' in
                                             go r (merge_exports acc l') s2
                                         | None => go r acc s'            (* TypeError caught, warning *)
                                         end
@@ -371,7 +445,7 @@ Fixpoint expx (fuel : nat) (top : string) (mp : path) (s : xstate) : outcome xst
           match items (match exports st with Some ex => ex | None => [] end) [] s with
           | Done (expanded, s') =>
               let t'' := match exports st with Some _ => set_exports (xt s') mp (Some expanded) | None => xt s' end in
-              let s'' := mkX t'' (xseen s') (xunsup s') (xdropped s') (mp :: xdone s') (xpending s') in
+              let s'' := mkX t'' (xseen s') (xunsup s') (xdropped s') (mp :: xdone s') (xpending s') (xhops s') in
               let subs :=
                 fix go (ms : list (string * member)) (s : xstate) : outcome xstate :=
                   match ms with
@@ -391,13 +465,69 @@ Fixpoint expx (fuel : nat) (top : string) (mp : path) (s : xstate) : outcome xst
       end
   end.
 
+(* every final target an alias can present when each hop that lands on a replaced alias member may still see the replaced one *)
+Definition olds_at (rp : list (path * string * member)) (mp : path) (n : string) : list member :=
+  flat_map (fun e => match e with (p, x, m) => if path_eqb p mp && String.eqb x n then [m] else [] end) rp.
+Fixpoint finals (fuel : nat) (t : table) (top : string) (rp : list (path * string * member)) (m : member) (loc : path) : list fres :=
+  match fuel with
+  | 0 => [FUnres]
+  | S f =>
+      let follow := fun p => match lookup_path t top p with
+                             | LMod q => [FMod q]
+                             | LMem mp n m' => finals f t top rp m' (mp ++ [n])
+                                               ++ flat_map (fun o => finals f t top rp o (mp ++ [n])) (olds_at rp mp n)
+                             | _ => [FUnres]
+                             end in
+      match m with
+      | MObj k _ => [FObj k loc]
+      | MSub => [FMod loc]
+      | MAlias tgt _ _ => follow tgt
+      | MWrap src inner _ => match inner with
+                             | MObj _ _ | MSub => follow src
+                             | _ => finals f t top rp inner src
+                             end
+      end
+  end.
+
+(* The submodule special case of apply_one compares two resolutions.  A resolution that passes over an alias member that an earlier
+   expansion replaced may still see the replaced alias (resolved and cached earlier: finding F7), so the comparison can go either way:
+   such an entry is recorded with the member that the other outcome would leave. *)
+Definition decision (r_new r_old : fres) : bool := match r_old with FMod _ => fres_eqb r_new r_old | _ => false end.
+
+Definition apply_ambig (fuel : nat) (t : table) (top : string) (mp : path) (ms : list (string * member)) (es : list expanded_entry)
+  (rp : list (path * string * member)) : list (path * string * member) :=
+  snd (fold_left (fun acc e =>
+                    let ms := fst acc in
+                    let amb := snd acc in
+                    let n := e_name e in
+                    let new := MWrap (e_src e) (e_member e) (e_ln e) in
+                    let self_alias := is_alias (e_member e) && path_eqb (alias_target_path (e_member e)) (mp ++ [n]) in
+                    let ev := match lookup n ms with
+                              | Some old =>
+                                  if negb self_alias && Nat.ltb (member_lineno old) (e_ln e) then
+                                    let t' := set_mod t mp (mkSt ms [] None) in
+                                    let rp' := rp ++ amb in
+                                    let olds := finals 14 t' top rp' old (mp ++ [n])
+                                                ++ flat_map (fun o => finals 14 t' top rp' o (mp ++ [n])) (olds_at amb mp n) in
+                                    let news := finals 14 t' top rp' new (mp ++ [n]) in
+                                    let ds := flat_map (fun ro => map (fun rn => decision rn ro) news) olds in
+                                    if existsb (fun d => d) ds && existsb negb ds
+                                    then [(mp, n, if decision (final fuel t' top new (mp ++ [n])) (final fuel t' top old (mp ++ [n]))
+                                                  then new else relineno old (e_ln e))]
+                                    else []
+                                  else []
+                              | None => []
+                              end in
+                    (apply_one fuel t top mp ms e, amb ++ ev)) es (ms, [])).
+
 (* ------------------------------------------------------------------------------------------------------------ *)
 (* loader.py: expand_wildcards (real traversal, with `seen`)                                                     *)
 (* ------------------------------------------------------------------------------------------------------------ *)
 Record wstate := mkW { wt : table; wseen : list path; wdone : list path;
                        wpending : list (path * path);       (* (reader, module read while its own expansion was pending) *)
                        wunsup : bool;
-                       wreplaced : list (path * string * member) }.
+                       wreplaced : list (path * string * member);
+                       wambig : list (path * string * member) }.
 
 Definition set_mod_members (t : table) (p : path) (ms : list (string * member)) : table :=
   match get_mod t p with Some st => set_mod t p (set_members st ms) | None => t end.
@@ -406,7 +536,7 @@ Fixpoint expw (fuel : nat) (top : string) (mp : path) (s : wstate) : outcome wst
   match fuel with
   | 0 => OutOfFuel
   | S f =>
-      let s := mkW (wt s) (mp :: wseen s) (wdone s) (wpending s) (wunsup s) (wreplaced s) in
+      let s := mkW (wt s) (mp :: wseen s) (wdone s) (wpending s) (wunsup s) (wreplaced s) (wambig s) in
       match get_mod (wt s) mp with
       | None => Done s
       | Some st0 =>
@@ -424,14 +554,14 @@ Fixpoint expw (fuel : nat) (top : string) (mp : path) (s : wstate) : outcome wst
                           match get_mod (wt s') q with
                           | Some stq =>
                               let pend := mem_path q (wseen s) && negb (mem_path q (wdone s')) && has_star stq in
-                              let s2 := if pend then mkW (wt s') (wseen s') (wdone s') (wpending s' ++ [(mp, q)]) (wunsup s') (wreplaced s') else s' in
+                              let s2 := if pend then mkW (wt s') (wseen s') (wdone s') (wpending s' ++ [(mp, q)]) (wunsup s') (wreplaced s') (wambig s') else s' in
                               go r (ex ++ collect stq q ln) (rm ++ [n]) s2
                           | None => go r ex rm s'
                           end
                       | other => match other with Crash e => Crash e | _ => OutOfFuel end
                       end
                   | LNone => go r ex rm s                                         (* KeyError: continue *)
-                  | _ => go r ex rm (mkW (wt s) (wseen s) (wdone s) (wpending s) true (wreplaced s))
+                  | _ => go r ex rm (mkW (wt s) (wseen s) (wdone s) (wpending s) true (wreplaced s) (wambig s))
                   end
               | (n, MSub) :: r =>
                   if mem_path (mp ++ [n]) (wseen s) then go r ex rm s
@@ -447,7 +577,8 @@ Fixpoint expw (fuel : nat) (top : string) (mp : path) (s : wstate) : outcome wst
               let fl := S (List.length (wt s') * 8 + 64) in
               let ms2 := apply_expanded fl (wt s') top mp ms1 ex in
               Done (mkW (set_mod_members (wt s') mp ms2) (wseen s') (mp :: wdone s') (wpending s') (wunsup s')
-                        (wreplaced s' ++ apply_events fl (wt s') top mp ms1 ex))
+                        (wreplaced s' ++ apply_events fl (wt s') top mp ms1 ex)
+                        (wambig s' ++ apply_ambig fl (wt s') top mp ms1 ex (wreplaced s' ++ wambig s')))
           | Crash e => Crash e
           | OutOfFuel => OutOfFuel
           end
@@ -464,14 +595,17 @@ Definition total_fuel (ms : list modsrc) : nat :=
 
 Record loaded := mkL { l_table : table; l_pending : list (path * path); l_unsup : bool;
                        l_dropped : list (path * string); l_replaced : list (path * string * member);
-                       l_xpending : list (path * path) }.
+                       l_xpending : list (path * path);
+                       l_ambig : list (path * string * member);        (* members the special case may have left instead *)
+                       l_stale : list (path * string) }.               (* members a source of an __all__ was followed over and that were replaced afterwards *)
 
 Definition griffe_load (top : string) (ms : list modsrc) : outcome loaded :=
   let fuel := total_fuel ms in
-  match expx fuel top [top] (mkX (initial_table ms) [] false [] [] []) with
+  match expx fuel top [top] (mkX (initial_table ms) [] false [] [] [] []) with
   | Done x =>
-      match expw fuel top [top] (mkW (xt x) [] [] [] (xunsup x) []) with
-      | Done w => Done (mkL (wt w) (wpending w) (wunsup w) (xdropped x) (wreplaced w) (xpending x))
+      match expw fuel top [top] (mkW (xt x) [] [] [] (xunsup x) [] []) with
+      | Done w => Done (mkL (wt w) (wpending w) (wunsup w) (xdropped x) (wreplaced w) (xpending x) (wambig w)
+                            (filter (fun h => match olds_at (wreplaced w ++ wambig w) (fst h) (snd h) with [] => false | _ => true end) (xhops x)))
       | Crash e => Crash e
       | OutOfFuel => OutOfFuel
       end
@@ -487,10 +621,13 @@ Definition sched_exports_items (fuel : nat) (t : table) (top : string) (mp : pat
                match it with
                | IStr x => acc ++ [IStr x]
                | IRef l a =>
-                   let from_module := fun q => match get_mod t q with
-                                               | Some stq => match exports stq with Some l' => merge_exports acc l' | None => acc end
-                                               | None => acc
-                                               end in
+                   let from_module := fun q0 => match list_owner fuel t top q0 (ref_list_name mp st l a) with
+                                                | Some q => match get_mod t q with
+                                                            | Some stq => match exports stq with Some l' => merge_exports acc l' | None => acc end
+                                                            | None => acc
+                                                            end
+                                                | None => acc
+                                                end in
                    match ref_module_path mp st l a with
                    | Some p => match lookup_path t top p with
                                | LMod q => from_module q
@@ -530,30 +667,6 @@ Definition sched_step (fuel : nat) (top : string) (t : table) (mp : path) : tabl
   sched_wild_step fuel top (sched_exports_step fuel top t mp) mp.
 Definition griffe_sched (top : string) (ms : list modsrc) (order : list path) : table :=
   fold_left (sched_step (S (List.length ms * 8 + 64)) top) order (initial_table ms).
-
-(* every final target an alias can present when each hop that lands on a replaced alias member may still see the replaced one *)
-Definition olds_at (rp : list (path * string * member)) (mp : path) (n : string) : list member :=
-  flat_map (fun e => match e with (p, x, m) => if path_eqb p mp && String.eqb x n then [m] else [] end) rp.
-Fixpoint finals (fuel : nat) (t : table) (top : string) (rp : list (path * string * member)) (m : member) (loc : path) : list fres :=
-  match fuel with
-  | 0 => [FUnres]
-  | S f =>
-      let follow := fun p => match lookup_path t top p with
-                             | LMod q => [FMod q]
-                             | LMem mp n m' => finals f t top rp m' (mp ++ [n])
-                                               ++ flat_map (fun o => finals f t top rp o (mp ++ [n])) (olds_at rp mp n)
-                             | _ => [FUnres]
-                             end in
-      match m with
-      | MObj k _ => [FObj k loc]
-      | MSub => [FMod loc]
-      | MAlias tgt _ _ => follow tgt
-      | MWrap src inner _ => match inner with
-                             | MObj _ _ | MSub => follow src
-                             | _ => finals f t top rp inner src
-                             end
-      end
-  end.
 
 (* ---- observable result: per module, exports and (name -> final target) for non-dunder names ---- *)
 Inductive view := VClass (p : path) | VFunc (p : path) | VAttr (p : path) | VModule (p : path) | VUnresolved.
@@ -839,13 +952,15 @@ Definition enc_table_view (tv : list (path * option (list item) * list (string *
 Definition enc_paths (l : list path) : sexp := SList (map (fun p => SStr (dotted p)) l).
 
 (* names whose alias chain passes over a replaced alias member, with every target they may present *)
-Definition enc_alts (t : table) (top : string) (rp : list (path * string * member)) : sexp :=
+Definition enc_alts (t : table) (top : string) (rp amb : list (path * string * member)) : sexp :=
   let fuel := 14 in        (* `finals` branches at every replaced member: a small depth bound keeps cyclic packages cheap *)
-  match rp with
+  let rpa := rp ++ amb in
+  match rpa with
   | [] => SList []
   | _ => SList (flat_map (fun pst =>
                   flat_map (fun nm => if is_dunder (fst nm) then []
-                                      else match finals fuel t top rp (snd nm) (fst pst ++ [fst nm]) with
+                                      else match finals fuel t top rpa (snd nm) (fst pst ++ [fst nm])
+                                                 ++ flat_map (fun o => finals fuel t top rpa o (fst pst ++ [fst nm])) (olds_at amb (fst pst) (fst nm)) with
                                            | [_] => []
                                            | l => [SList [SStr (dotted (fst pst)); SStr (fst nm); SList (map (fun r => enc_view (view_of_fres r)) l)]]
                                            end) (members (snd pst))) t)
@@ -857,8 +972,9 @@ Definition enc_load (top : string) (r : outcome loaded) : sexp :=
                      SList (map (fun rq => SList [SStr (dotted (fst rq)); SStr (dotted (snd rq))]) (l_pending l));
                      of_bool (l_unsup l);
                      SList (map (fun d => SList [SStr (dotted (fst d)); SStr (snd d)]) (l_dropped l));
-                     enc_alts (l_table l) top (l_replaced l);
-                     SList (map (fun rq => SList [SStr (dotted (fst rq)); SStr (dotted (snd rq))]) (l_xpending l))]
+                     enc_alts (l_table l) top (l_replaced l) (l_ambig l);
+                     SList (map (fun rq => SList [SStr (dotted (fst rq)); SStr (dotted (snd rq))]) (l_xpending l));
+                     SList (map (fun h => SList [SStr (dotted (fst h)); SStr (snd h)]) (l_stale l))]
   | Crash e => SList [SStr "crash"; SStr e]
   | OutOfFuel => SList [SStr "out-of-fuel"]
   end.
